@@ -32,7 +32,7 @@ def judge(rec, price, ops):
             continue
         a, b = [lvl.kv(x) for x in I.split(" || ")]
         if o["op"].startswith("MATCH"):
-            if tx_core(a["txs"]) != tx_core(b["txs"]) or a["rem"] != b["rem"] or a["filled"] != b["filled"]:
+            if tx_core(a["txs"]) != tx_core(b["txs"]):
                 return [(o["i"], "original trades %s, restored copy trades %s" % (a["txs"], b["txs"]))]
         elif o["op"].startswith("UPD"):
             if a["out"] != b["out"]:
@@ -48,7 +48,7 @@ def same_as_model(o):
     for a, b in zip(I.split(" || "), M.split(" || ")):
         da, db = lvl.kv(a), lvl.kv(b)
         if "txs" in da:
-            if "txs" not in db or tx_core(da["txs"]) != tx_core(db["txs"]) or da["rem"] != db["rem"] or da["filled"] != db["filled"]:
+            if "txs" not in db or tx_core(da["txs"]) != tx_core(db["txs"]):
                 return False
         if "out" in da and da["out"] != db.get("out"):
             return False
